@@ -159,6 +159,7 @@ type Report struct {
 	WallS       float64           `json:"wall_s"`
 
 	seen  map[[8]byte]struct{}
+	kept  map[string]int
 	start time.Time
 }
 
@@ -192,11 +193,20 @@ func (r *Report) Stat(name string) { r.Stats[name]++ }
 func (r *Report) AddDiff(d Diff) {
 	r.NDiffs++
 	r.ClassCounts[d.Class]++
-	// keep every unclassified diff up to 25, and a few examples of each class
-	if (d.Class == "" && r.ClassCounts[""] <= 25) || (d.Class != "" && r.ClassCounts[d.Class] <= 3) {
-		if d.Component == "" {
-			d.Component = r.Component
-		}
+	if d.Component == "" {
+		d.Component = r.Component
+	}
+	// keep a few examples per (component, level, class) so that one noisy comparison cannot crowd out the others
+	if r.kept == nil {
+		r.kept = map[string]int{}
+	}
+	k := d.Component + "|" + d.Level + "|" + d.Class
+	limit := 8
+	if d.Class != "" {
+		limit = 3
+	}
+	if r.kept[k] < limit && len(r.Diffs) < 120 {
+		r.kept[k]++
 		r.Diffs = append(r.Diffs, d)
 	}
 }
